@@ -186,7 +186,7 @@ func runC19(out *Out, r *Rand, tier string, replay []string) {
 		out.Close("replay")
 		return
 	}
-	n := 25
+	n := 60
 	if tier == "thorough" {
 		n = 600
 	}
